@@ -168,7 +168,8 @@ def part_print_corr(ctx, part):
         part.count("lines_%s" % ("0" if not o["lines"] else "1-5" if len(o["lines"]) <= 5 else "6+"))
         if o["lines"]:
             part.nontrivial.add(json.dumps([e, b, sigs, t, mode], sort_keys=True))
-        variants = [coq_target(v, vs) for v, vs in zip(t.get("vars") or [], o["vstrs"])] if t["tag"] == 265 else []
+        # DefinedMethod is not part of the projection: the harness sets it on the target only, the variants have none
+        variants = [coq_target(dict(v, dm=""), vs) for v, vs in zip(t.get("vars") or [], o["vstrs"])] if t["tag"] == 265 else []
         terms.append("(%s, %s, %s, %s, %s, (%s, %s), (%s, %s), %s, %s)" % (
             {"suggest": "QSuggest", "hover": "QHover", "define": "QDefine"}[mode], coq_map(e),
             C.coq_list([C.coq_str(z) for z in b]), coq_target(t, o["str"]), C.coq_list(variants),
